@@ -409,7 +409,7 @@ def run(ctx):
     ops5 = build_ops(keys5, vals5)
     keys6, vals6 = (None, ("a", 1), 0, "a"), (1, None, "a")  # keys that are falsy, None, or a (key, value)-shaped tuple are keys like any other
     ops6 = build_ops(keys6, vals6)
-    for i in range(ctx.scale(1500, 200_000)):
+    for i in range(ctx.scale(1500, 120_000)):
         if i % 3 == 2:
             keys4, vals4, ops4 = keys5, vals5, ops5
         elif i % 6 == 1:
